@@ -223,7 +223,7 @@ impl<const HOSTILE: bool> CheckDef for Sp<HOSTILE> {
 }
 
 pub fn run(ctx: &mut Ctx) {
-    ctx.rule("SP: scripted peer sends data in generated arrival orders (in order, gaps, gap fills, duplicates, beyond the window, after FIN; sizes 1..max datagram, ISN incl. wrap) against generated reader behaviours (fast, slow, stopped, dropped) and rx-buffer/MTU configurations; classes disciplined (peer respects the advertised window and slot capacity; exact clauses) and hostile (anything; one-sided clauses). Oracle on every emitted datagram: ack monotone, ack <= highest contiguous delivered, SACK bits subset of / equal to held out-of-order set, wnd <= rx_buf - held, bytes read == in-order concatenation, acked data reaches a draining reader. non-trivial = >=1 out-of-order arrival, >=1 SACK bit emitted, >=1 read; distinct by hash of the (ack, #sack bits, window bucket) sequence");
+    ctx.rule("SP: scripted peer sends data in generated arrival orders (in order, gaps, gap fills, duplicates, beyond the window, after FIN — hostile class: data numbered beyond the peer's own FIN while the endpoint's FIN is outstanding —; sizes 1..max datagram, ISN incl. wrap) against generated reader behaviours (fast, slow, stopped, dropped) and rx-buffer/MTU configurations; classes disciplined (peer respects the advertised window and slot capacity; exact clauses) and hostile (anything; one-sided clauses). Oracle on every emitted datagram: ack monotone, ack <= highest contiguous delivered, SACK bits subset of / equal to held out-of-order set, wnd <= rx_buf - held, bytes read == in-order concatenation, acked data reaches a draining reader. non-trivial = >=1 out-of-order arrival, >=1 SACK bit emitted, >=1 read; distinct by hash of the (ack, #sack bits, window bucket) sequence");
     ctx.assume("socket<->peer latency 0; the peer's stimuli are built by the harness's own encoder");
     ctx.replay_corpus::<Sp<false>>();
     ctx.replay_corpus::<Sp<true>>();
